@@ -345,6 +345,10 @@ func errKind(err error) string {
 	switch {
 	case errors.As(err, &he):
 		return harnessPrefix + strings.ReplaceAll(m, "\n", " ")
+	case strings.Contains(m, "too many namespace"):
+		return "err too-many-namespaces"
+	case strings.Contains(m, "too many metric name"):
+		return "err too-many-metrics"
 	case strings.Contains(m, "too many series"):
 		return "err too-many-series"
 	case strings.Contains(m, "too many tag keys"), strings.Contains(m, "too many tag"):
